@@ -3,7 +3,7 @@
    decoders/encoders of sx, no logic that a property theorem speaks about. *)
 From Coq Require Import ZArith List Bool.
 From V Require Import Result Bytes TypeName Utf8 Float32 Codec AuxTable.
-From V Require World WorldRun.
+From V Require World WorldRun Cfg CfgRun ByteStore ByteRun.
 Import ListNotations.
 Open Scope Z_scope.
 
@@ -142,5 +142,9 @@ Definition run (req : sx) : sx :=
     L (run_table (getter_of_sx g) (fresh (un_zs tn) (value_of_sx v)) (un_zs tn, []) ops)
   (* 20: a history over the object-graph model *)
   | L [A 20; items] => WorldRun.run_world items
+  (* 30: a history over one CFG *)
+  | L [A 30; items] => CfgRun.run_cfg items
+  (* 31: one byte interval's storage through a history *)
+  | L [A 31; size; init; contents; items] => ByteRun.run_bytes size init contents items
   | _ => L [A (-2)]
   end.
